@@ -115,7 +115,7 @@ def _isnan(x) -> bool:
 
 def campaigns(tier: str) -> List[Campaign]:
     return [Campaign("breakdown", cp_case(), check, quick=480, thorough=11200, quick_shards=8,
-                     required_classes={"case:SS": 0.15, "case:SE": 0.5, "case:EE": 0.1, "case:ES": 0.08, "bound:cpu_bound": 0.5,
+                     required_classes={"case:SS": 0.1, "case:SE": 0.5, "case:EE": 0.1, "case:ES": 0.06, "bound:cpu_bound": 0.5,
                                        "bound:gpu_compute_bound": 0.1, "bound:gpu_communication_bound": 0.03,
                                        "bound:gpu_kernel_launch_overhead": 0.1},
                      sample_view=view)]
